@@ -351,9 +351,13 @@ class TimePointParser(object):
         info = result.groupdict()
         for property_, value in list(info.items()):
             if property_ in data.PARSE_PROPERTY_TRANSLATORS:
-                info.pop(property_)
+                # This property (e.g. %s) determines the whole date-time by
+                # itself; other fields in the format can only restate it.
+                # N.B. Mixing them in is wrong: the translated properties
+                # are in the local time zone, not that of the other fields.
                 translator = data.PARSE_PROPERTY_TRANSLATORS[property_]
-                info.update(translator(value))
+                info = dict(translator(value))
+                break
         date_info_keys = []
         for item in parser_spec.get_date_translate_info(
                 self.num_expanded_year_digits):
